@@ -150,7 +150,37 @@ func execC20(x *Ctx, sc *wire.Scenario) *wire.Result {
 	window := "unsupported-window"
 	if supportedOnly {
 		window = "while-waiting-for-input"
+		for _, f := range firedList {
+			if strings.HasSuffix(f, "@argwait") {
+				window = "while-reading-an-argument-key"
+			}
+		}
 	}
+	// the kinds of disturbance that ran (a kind that ran more than once is marked): a failure
+	// with a single resize while waiting is not the same finding as one needing two Printf callers
+	kindCount := map[string]int{}
+	for k, v := range out.Counters {
+		if strings.HasPrefix(k, "disturb:") {
+			kind := strings.TrimPrefix(k, "disturb:")
+			kind = kind[:strings.Index(kind, "@")]
+			if kind == "resize" {
+				kind = "sigwinch"
+			}
+			if kind == "printtransientf" {
+				kind = "printf"
+			}
+			kindCount[kind] += v
+		}
+	}
+	var kinds []string
+	for k, v := range kindCount {
+		if v > 1 {
+			k += "*"
+		}
+		kinds = append(kinds, k)
+	}
+	sort.Strings(kinds)
+	window += "|" + strings.Join(kinds, "+")
 	// (1) no panic
 	if out.End == "PANIC" {
 		return violation(res, "PANIC", "C20.no-panic", panicSig(out.Panic, out.PanicStack)+":"+window,
